@@ -29,7 +29,9 @@ def specs(draw, tier):
     spec["ndrops"] = draw(st.integers(2, 6))
     spec["refine_args"] = draw(
         st.sampled_from(
-            [None, None, {"vmin": None, "vmax": None}, {"adjust_values": True}, {"tolerance": 1e-6}, {"least_squares_params": {}}, {"least_squares_params": {"max_nfev": 40}}, {"adjust_values": True, "least_squares_params": {"method": "trf"}}, {"vmin": None, "vmax": None, "adjust_values": True, "least_squares_params": {}}, {"vmin": None, "vmax": None, "adjust_values": True, "least_squares_params": {}}]
+            [None, None, {"vmin": None, "vmax": None}, {"adjust_values": True}, {"tolerance": 1e-6}, {"least_squares_params": {}}, {"least_squares_params": {"max_nfev": 40}}, {"adjust_values": True, "least_squares_params": {"method": "trf"}}, {"vmin": None, "vmax": None, "adjust_values": True, "least_squares_params": {}}, {"vmin": None, "vmax": None, "adjust_values": True, "least_squares_params": {}},
+             # documented pass-through of solver options: robust loss functions (whose scale parameter has a default of its own)
+             {"vmin": None, "vmax": None, "least_squares_params": {"loss": "soft_l1"}}, {"vmin": None, "vmax": None, "adjust_values": True, "least_squares_params": {"loss": "huber"}}, {"least_squares_params": {"loss": "cauchy", "f_scale": 0.1}}, {"vmax": None, "least_squares_params": {"loss": "soft_l1", "max_nfev": 60}}]
         )
     )
     spec["modes"] = draw(st.sampled_from([0, 0, 2])) if dim == 2 else 0
